@@ -363,7 +363,7 @@ class C14(diffcheck.DiffProp):
     package = "rt"
     shards = 12
     gen = gen_c14
-    counts = {"quick": 480, "thorough": 9000}
+    counts = {"quick": 400, "thorough": 9000}
     thorough_release = False
     uses_consts = False
     rule = ("cases = corpus + random programs: 62% stream pairs (TCP/Unix, 4 concurrent tasks, write / write_vectored / "
